@@ -326,11 +326,9 @@ func (t *Dense) TensorMul(other Tensor, axesA, axesB []int) (retVal *Dense, err 
 	}
 
 	// the magic happens here
-	var rt Tensor
-	if rt, err = Dot(doT, doOther); err != nil {
-		return
+	if retVal, err = doT.MatMul(doOther); err != nil {
+		return nil, err
 	}
-	retVal = rt.(*Dense)
 
 	retShape := BorrowInts(len(retShape1) + len(retShape2))
 	defer ReturnInts(retShape)
